@@ -602,22 +602,53 @@ def run_case(case: dict) -> dict:
     try:
         if case.get("lseed") is not None:
             from sfv.rt.loop import run_controlled
-            return run_controlled(lambda: _run(case), case["lseed"], timeout=case.get("timeout", 180) + 60)
+            try:
+                return run_controlled(lambda: _run(case), case["lseed"], timeout=case.get("timeout", 180) + 60)
+            except (TimeoutError, asyncio.TimeoutError):
+                return {"outcome": "hang", "msg": "time-out of the controlled loop", "attempts": {}, "versions": {}, "injected": [], "events": [],
+                        "timeline": [], "deleted": [], "dirs": [], "avail": [], "statuses": {}, "outputs": {}, "fm_events": [], "plan_left": []}
         return _run_loop(_run(case))
     finally:
         shutil.rmtree(root, ignore_errors=True)
 
 
-def run_cases(cases: list, timeout: float = 300, workers: int = 6):
-    """pmap over `run_case`; a case whose worker gave no result in time is retried once in a fresh worker (a stuck worker
-    process — e.g. a thread of the sqlite layer surviving the event loop — is infrastructure, a hang that repeats is a result)"""
+def run_confirmed(ctx, fn, cases: list, timeout: float = 300, workers: int = 6, inner_default: float = 180, factor: int = 5,
+                  is_hang=None, name=lambda c: str(c.get("name", c.get("idx", "?")))):
+    """pmap over `fn`, with the rule that a WALL-CLOCK time-out is never a verdict by itself: a case whose worker gave no result in time
+    (`status == "timeout"`) or whose own watchdog fired (`is_hang(result)`) is re-run ALONE, after the pool has drained, with `factor`
+    times the bounds (`case["timeout"]` is the case's own watchdog). If it completes then, the new result is used and a note
+    "slow under load" is recorded; if it hangs again the hang is reported (`confirmed: True`); if the remaining budget does not allow the
+    confirmation the check is inconclusive (exit 2), never a violation."""
+    from sfv.framework import Inconclusive
     from sfv.rt.par import pmap
-    again = []
-    for case, status, r in pmap(run_case, cases, timeout=timeout, workers=workers):
-        if status == "timeout":
-            again.append(case)
+    is_hang = is_hang or (lambda r: isinstance(r, dict) and r.get("outcome") == "hang")
+    suspects = []
+    for case, status, r in pmap(fn, cases, timeout=timeout, workers=workers):
+        if status == "timeout" or (status == "ok" and is_hang(r)):
+            suspects.append((case, status))
         else:
             yield case, status, r
-    if again:
-        for case, status, r in pmap(run_case, again, timeout=timeout, workers=min(workers, len(again))):
-            yield case, status, r
+    for case, status in suspects:
+        inner = factor * float(case.get("timeout", inner_default))
+        bound = inner + 240
+        if ctx is not None and ctx.time_left() < bound:
+            raise Inconclusive(f"case {name(case)} hit its {'worker' if status == 'timeout' else 'own'} time-out under load and the remaining "
+                               f"budget ({ctx.time_left():.0f}s) does not allow the confirmation run ({bound:.0f}s)")
+        t0 = time.time()
+        (_, st2, r2), = list(pmap(fn, [dict(case, timeout=inner)], timeout=bound, workers=1))
+        if st2 == "ok" and not is_hang(r2):
+            if ctx is not None:
+                ctx.count("slow-under-load")
+                ctx.notes.append(f"slow under load: {name(case)} hit its time-out in the pool and completed in {time.time() - t0:.0f}s when re-run alone")
+            yield case, st2, r2
+        elif st2 == "timeout":
+            yield case, "timeout", f"no result within {timeout}s in the pool and none within {bound:.0f}s when re-run alone (confirmed)"
+        else:
+            if isinstance(r2, dict):
+                r2 = dict(r2, confirmed=True)
+            yield case, st2, r2
+
+
+def run_cases(cases: list, timeout: float = 300, workers: int = 6, ctx=None):
+    """recovery cases through `run_confirmed`"""
+    yield from run_confirmed(ctx, run_case, cases, timeout=timeout, workers=workers, inner_default=180)
